@@ -1582,6 +1582,17 @@ class ModelBuilder:
                                 delta = timedelta(minutes=num)
                             elif unit == "d":
                                 delta = timedelta(days=num)
+                            elif unit == "w":
+                                delta = timedelta(weeks=num)
+                            elif unit in ("m", "y"):
+                                # Calendar months / years like the project header
+                                from dateutil.relativedelta import relativedelta
+
+                                whole = int(num)
+                                if unit == "m":
+                                    delta = relativedelta(months=whole) + timedelta(days=30 * (num - whole))
+                                else:
+                                    delta = relativedelta(years=whole) + timedelta(days=365 * (num - whole))
                             else:
                                 delta = timedelta(hours=num)
                         else:
